@@ -3,6 +3,7 @@ C19 — property theorems (statements only; helper lemmas live in `Proofs/C19*.l
 Direction and factorial tables are the ones `translator/tables.py` extracts on every run.
 -/
 import Mahotas.Proofs.C19Cooc
+import Mahotas.Proofs.C19CoocModel
 import Mahotas.Proofs.C19Lbp
 import Mahotas.Proofs.C19LbpHist
 import Mahotas.Proofs.C19Integral
@@ -57,6 +58,21 @@ theorem C19_factorial_table :
     factorialTable.length = 13 ∧ ∀ i < factorialTable.length, factorialTable.getD i 0 = factN i := by
   refine ⟨rfl, ?_⟩
   decide
+
+/-- **C19-T1 (co-occurrence counts).** For every image of any rank whose values lie in `[0, m)` and every
+offset `d`, the model of `_texture.cpp: cooccurence` (scan in C order, `++res[f p][f (p+d)]` wherever the
+neighbour lies inside the image) yields exactly the matrix of counts
+`C[a][b] = #{p | p inside, p+d inside, f p = a, f (p+d) = b}`, and with the symmetric fold exactly `C + Cᵀ`
+— the whole `m×m` matrices the driver prints as `model` and `spec` are equal. -/
+theorem C19_cooc_counts (m : Nat) (im : Img Int) (d : List Int)
+    (hv : ∀ p, 0 ≤ im.getD p 0 ∧ im.getD p 0 < (m : Int)) :
+    (coocModel m im d).toList = coocSpecMat m im d false ∧
+    (symFold m (coocModel m im d)).toList = coocSpecMat m im d true ∧
+    ∀ a b : Nat, a < m → b < m →
+      (coocModel m im d).getD (a * m + b) 0 = coocCount im.shape (fun p => im.getD p 0) d a b ∧
+      (symFold m (coocModel m im d)).getD (a * m + b) 0 = coocSym im.shape (fun p => im.getD p 0) d a b :=
+  ⟨coocModel_toList m im d hv, coocModel_sym_toList m im d hv,
+   fun a b ha hb => ⟨coocModel_eq_count m im d hv a b ha hb, coocModel_sym_eq m im d hv a b ha hb⟩⟩
 
 /-- **C19-T2 (180° rotation).** For every shape (any rank), image `f`, direction `d` of matching rank and
 grey levels `a, b`: the co-occurrence count of the image rotated by 180° (`p ↦ shape−1−p`) is the
